@@ -50,10 +50,11 @@ def configs(ctx):
     quick = ctx.tier == "quick"
     cs = [[(1, "c", [10]), (1, "s", [20])],
           [(1, "c", [10, 11]), (1, "s", [20])],
-          [(1, "c", [10, 11]), (1, "s", [20, 21])]]
+          [(1, "c", [10, 11]), (1, "s", [20, 21])],
+          [(1, "c", [10, 11, 12]), (1, "s", [20, 21, 22])]]
     if not quick:
         cs += [[(1, "c", [10]), (1, "s", [20]), (2, "c", [30]), (2, "s", [40])],
-               [(1, "c", [10, 11, 12]), (1, "s", [20, 21, 22])]]
+               [(1, "c", [10, 11, 12, 13]), (1, "s", [20, 21, 22])]]
     return cs
 
 
@@ -66,7 +67,7 @@ def run(ctx):
     failed = ctx.coq_build()
     ctx.check_proofs()
     coq_ok = not ({"Base/Prelude.v", "Match/Matcher.v", "Match/MatcherConc.v"} & failed)
-    max_runs = 4000 if ctx.tier == "quick" else 60000
+    max_runs = 4000 if ctx.tier == "quick" else 12000
     for proto in PROTOS:
         for cfg in configs(ctx):
             args = ["conc", proto, str(max_runs)] + ["%d:%s:%s" % (c, d, ",".join(map(str, ps))) for c, d, ps in cfg]
@@ -159,7 +160,7 @@ def run(ctx):
     ]
     return ctx.finish(
         rule="every schedule of the yield points of the real redis and http Dissect of both directions under the deterministic scheduler for the listed conversations "
-             "(1x1, 2x1, 2x2 exchanges; thorough adds two connections and 3x3, capped at max_runs schedules per configuration); distinct = distinct model trace",
+             "(1x1, 2x1, 2x2, 3x3 exchanges; thorough adds two connections and 4x3, capped at max_runs schedules per configuration); distinct = distinct model trace",
         assumptions=["one goroutine per direction per connection", "sync.Map / sync.Mutex linearizable"],
         extra={"max_runs_per_config": max_runs})
 
